@@ -196,6 +196,16 @@ func Src(fset *token.FileSet, n ast.Node) string {
 	return s
 }
 
+// SrcFull renders a node as source text on one line without truncation.
+func SrcFull(fset *token.FileSet, n ast.Node) string {
+	if n == nil {
+		return ""
+	}
+	var b bytes.Buffer
+	printer.Fprint(&b, fset, n)
+	return strings.Join(strings.Fields(b.String()), " ")
+}
+
 // TypeName renders the named type of t as "<relpkg>.<Name>" ("" if unnamed).
 func TypeName(t types.Type) string {
 	if t == nil {
